@@ -175,6 +175,7 @@ func (c *checker) CheckUnions(t *parser.Thrift) (warns []string, err error) {
 					err = fmt.Errorf("[IDL grammar error] field %s provides another default value for union %s from file %s", f.Name, u.Name, t.Filename)
 					return warns, err
 				}
+				hasDefault = true
 			}
 
 			if c.FixWarnings {
